@@ -309,6 +309,20 @@ pub fn c12(case: &Case, obs: &mut Obs) -> Result<(), Failure> {
     if !case.a.0.is_empty() {
         pool.push(MultiPolygon(vec![case.a.0[0].clone()]));
     }
+    // "for all operands": purity and determinism are claimed for operands that are not valid polygon sets as well
+    // (overlapping parts, the same part twice). For calls on these a panic counts as a result like any other: it
+    // must be the same panic every time.
+    let first_unchecked = pool.len();
+    pool.push(MultiPolygon(case.a.0.iter().chain(case.b.0.iter()).cloned().collect()));
+    pool.push(MultiPolygon(case.a.0.iter().chain(case.a.0.iter()).cloned().collect()));
+    pool.push(MultiPolygon(case.b.0.iter().chain(case.b.0.iter()).chain(case.a.0.iter()).cloned().collect()));
+    let panic_value = |p: &PanicInfo| -> MP {
+        let mut h: u64 = 1469598103934665603;
+        for b in p.file.bytes().chain(p.message.bytes().take(48)) {
+            h = (h ^ b as u64).wrapping_mul(1099511628211);
+        }
+        MultiPolygon(vec![geo_types::Polygon::new(geo_types::LineString(vec![pt(-7.0e300, p.line as f64), pt((h >> 12) as f64, 0.0), pt(-7.0e300, p.line as f64)]), vec![])])
+    };
     let snapshot: Vec<_> = pool.iter().map(bits_of).collect();
     let n = pool.len() as u64;
     // the call history is derived from the bits (shrinks with them)
@@ -338,7 +352,7 @@ pub fn c12(case: &Case, obs: &mut Obs) -> Result<(), Failure> {
     for (step, &(opi, i, j, place)) in calls.iter().enumerate() {
         let op = OPS[opi];
         let budget = event_bound(n_edges(&pool[i], &pool[j]));
-        if place == 3 && f32_ok {
+        if place == 3 && f32_ok && i < first_unchecked && j < first_unchecked {
             obs.class("f32-call-before-f64-call");
             let r32 = run_op(Prec::F32, Pairing::MM, &pool[i], &pool[j], op).map_err(|p| panic_failure(&format!("f32 {}", op_name(op)), &p))?;
             match memo32.get(&(opi, i, j)) {
@@ -361,8 +375,18 @@ pub fn c12(case: &Case, obs: &mut Obs) -> Result<(), Failure> {
                 use geo_booleanop::boolean::BooleanOp;
                 pool[i].boolean(&pool[j], op)
             }),
+        };
+        let r = match r {
+            Ok(r) => r,
+            Err(p) if i >= first_unchecked || j >= first_unchecked => {
+                obs.class("panic-on-invalid-operand-as-value");
+                panic_value(&p)
+            }
+            Err(p) => return Err(panic_failure(op_name(op), &p)),
+        };
+        if i >= first_unchecked || j >= first_unchecked {
+            obs.class("call-on-overlapping-parts");
         }
-        .map_err(|p| panic_failure(op_name(op), &p))?;
         check_pool(&pool, &format!("during call {} ({} #{} #{})", step, op_name(op), i, j))?;
         if !boxes_disjoint(&mp_edges(&pool[i]), &mp_edges(&pool[j])) && !r.0.is_empty() {
             obs.nontrivial = true;
@@ -408,7 +432,11 @@ pub fn c12(case: &Case, obs: &mut Obs) -> Result<(), Failure> {
             let out = h.join().map_err(|_| Failure::new("thread-panicked", "a concurrent worker panicked"))?;
             for (idx, r) in out {
                 let (opi, i, j, _) = calls[idx];
-                let r = r.map_err(|p| panic_failure(op_name(OPS[opi]), &p))?;
+                let r = match r {
+                    Ok(r) => r,
+                    Err(p) if i >= first_unchecked || j >= first_unchecked => panic_value(&p),
+                    Err(p) => return Err(panic_failure(op_name(OPS[opi]), &p)),
+                };
                 if let Some(first) = memo.get(&(opi, canon[i], canon[j])) {
                     if bits_of(first) != bits_of(&r) {
                         return Err(Failure::new("nondeterministic", format!("a concurrently running thread got {} for {} #{} #{}, the reference is {}", mp_to_text(&r), op_name(OPS[opi]), i, j, mp_to_text(first))));
